@@ -9,7 +9,7 @@ import astropy.units as u
 from hypothesis import strategies as st
 
 from ..core import Sub, check, lib, Violation
-from .. import oracle as O
+from .. import oracle as O, gen as G
 
 TWO52 = F(1, 2**52)
 K2_SEEN = []
@@ -64,10 +64,10 @@ def exact_vals(ps):
     return [F(c) + F(f) for c, f in zip(ps["count"], ps["frac"])]
 
 
-def is_phase(p, what):
+def is_phase(p, what, cls=None):
     import pulsarbat as pb
 
-    check(type(p) is pb.Phase, "{}: result is {} -- degraded from a two-part Phase", what, type(p).__name__)
+    check(type(p) is (cls or pb.Phase), "{}: result is {} -- degraded from a two-part Phase", what, type(p).__name__)
     v = np.asarray(p.view(np.ndarray))
     check(v.dtype.names == ("int", "frac"), "{}: dtype {} is not the two-double structure", what, v.dtype)
     i, f = v["int"].ravel(), v["frac"].ravel()
@@ -78,8 +78,8 @@ def is_phase(p, what):
         K2_SEEN.append(what)
 
 
-def compare(p, expected, what, imag=False, tol=TWO52, shape=None):
-    is_phase(p, what)
+def compare(p, expected, what, imag=False, tol=TWO52, shape=None, cls=None):
+    is_phase(p, what, cls)
     check(bool(p.imaginary) == bool(imag) or all(e == 0 for e in expected), "{}: imaginary flag {} (expected {})", what, p.imaginary, imag)
     got = O.phase_fractions(p)
     if shape is not None:
@@ -206,20 +206,52 @@ def number_exact(op):
 
 @st.composite
 def construct_case(draw):
-    form = draw(st.sampled_from(["one_float", "two", "two", "two_q", "int", "arr_two", "from_phase", "npscalar"]))
+    form = draw(st.sampled_from(["one_float", "two", "two", "two_q", "int", "arr_two", "from_phase", "npscalar", "imag_two", "class_change", "class_change"]))
     shape = [] if form != "arr_two" else list(draw(st.sampled_from([(3,), (2, 2)])))
     n = int(np.prod(shape)) if shape else 1
     a = [float(draw(counts(51))) + (draw(fracs(True)) if draw(st.booleans()) else 0.0) for _ in range(n)]
     b = [draw(st.one_of(fracs(True), counts(40).map(float))) for _ in range(n)]
-    return {"form": form, "a": a, "b": b, "shape": shape}
+    return {"form": form, "a": a, "b": b, "shape": shape, "imag": draw(st.booleans()),
+            "change": draw(st.sampled_from(["sub_to_base", "base_to_sub", "view_base", "view_sub", "sub_to_base_plus", "copy_sub", "pickle_sub", "subok"]))}
 
 
 def run_construct(case, stt):
     import pulsarbat as pb
 
     a, b, form = case["a"], case["b"], case["form"]
+    imag, cls = False, None
     with lib("Phase(...) construction"):
-        if form == "one_float":
+        if form == "imag_two":
+            # a purely imaginary phase from two imaginary numbers
+            p, ex, imag = pb.Phase(a[0] * 1j, b[0] * 1j), [F(a[0]) + F(b[0])], True
+        elif form == "class_change":
+            # an instance of a user-defined subclass of Phase handed to Phase (and the other way round, and as views): same value, same
+            # real/imaginary kind, class as asked for
+            import copy
+            import pickle
+
+            imag, j, ch = bool(case.get("imag")), (1j if case.get("imag") else 1), case.get("change", "sub_to_base")
+            ex = [F(a[0]) + F(b[0])]
+            sub, base = G.MyPhase(a[0] * j, b[0] * j), pb.Phase(a[0] * j, b[0] * j)
+            check(type(sub) is G.MyPhase, "MyPhase(...) is a {}", type(sub).__name__)
+            if ch == "sub_to_base":
+                p = pb.Phase(sub)
+            elif ch == "sub_to_base_plus":
+                p, ex = pb.Phase(sub, b[0] * j), [ex[0] + F(b[0])]
+            elif ch == "base_to_sub":
+                p, cls = G.MyPhase(base), G.MyPhase
+            elif ch == "view_base":
+                p = sub.view(pb.Phase)
+            elif ch == "view_sub":
+                p, cls = base.view(G.MyPhase), G.MyPhase
+            elif ch == "copy_sub":
+                p, cls = copy.deepcopy(sub) if a[0] % 2 else copy.copy(sub), G.MyPhase
+            elif ch == "pickle_sub":
+                p, cls = pickle.loads(pickle.dumps(sub)), G.MyPhase
+            else:
+                p, cls = pb.Phase(sub, subok=True), G.MyPhase
+            stt.label("class_change_" + ch + ("_imag" if imag else "_real"))
+        elif form == "one_float":
             p, ex = pb.Phase(a[0]), [F(a[0])]
         elif form == "int":
             p, ex = pb.Phase(int(a[0])), [F(int(a[0]))]
@@ -235,7 +267,7 @@ def run_construct(case, stt):
         else:
             A, B = np.array(a).reshape(case["shape"]), np.array(b).reshape(case["shape"])
             p, ex = pb.Phase(A, B), [F(x) + F(y) for x, y in zip(a, b)]
-    compare(p, ex, "Phase(%s)" % form)
+    compare(p, ex, "Phase(%s%s)" % (form, ":" + case.get("change", "") if form == "class_change" else ""), imag=imag, cls=cls)
     big = any(abs(e) >= 2**33 and e.denominator != 1 for e in ex)
     stt.nt(big)
     stt.label("form_" + form)
